@@ -11,21 +11,23 @@ EXTENDS TraceLib, FiniteSets
 VARIABLES l
 
 \* the constant-level part of Delivery.tla (its variables are not used here)
-D == INSTANCE Delivery WITH mode <- "", dest <- "", input <- "", pc <- "", compiled <- "", target <- "", others <- "", stdout <- "", result <- "", shape <- "", buffered <- FALSE, fmt <- "", FlushBeforeReturn <- TRUE, FormatErrorSurfaces <- FALSE
+D == INSTANCE Delivery WITH mode <- "", dest <- "", input <- "", pc <- "", compiled <- "", target <- "", others <- "", stdout <- "", result <- "", shape <- "", buffered <- FALSE, fmt <- "", FlushBeforeReturn <- TRUE, FormatErrorSurfaces <- FALSE, SkipWhenSame <- FALSE
 
 Deliver(e, i) ==
-    LET c == IF e.compiled = "ok" THEN "ok" ELSE "err" IN
+    LET c == IF e.compiled = "ok" THEN "ok" ELSE "err"
+        \* the empty text (Delivery!NoText) is the one shape the demands depend on
+        sh == IF e.compiled = "ok" /\ Has(e, "text_bytes") /\ e.text_bytes = 0 THEN "no_text" ELSE "ends_in_newline" IN
     IF e.compiled = "unstaged" THEN Report(i, "SKIP", "the scene could not be set: " \o e.detail)
     ELSE IF e.compiled = "panic" THEN Report(i, "SKIP", "compile_to_string panics on this input (C08)")
     ELSE IF (e.input = "good") # (e.compiled = "ok") THEN Report(i, "SKIP", "input class and compile_to_string disagree: " \o e.input \o " / " \o e.compiled)
     ELSE IF e.result \notin {"ok", "err"}
         THEN Report(i, "MISMATCH", "neither Ok nor Err / exit status 0 or 1, but " \o e.result \o ": " \o e.detail)
-    ELSE IF e.result # D!Result(e.mode, e.dest, c)
-        THEN Report(i, "MISMATCH", "returns " \o e.result \o " where " \o D!Result(e.mode, e.dest, c) \o " is due: " \o e.detail)
-    ELSE IF e.target_after # D!TargetAfter(e.mode, e.dest, c)
-        THEN Report(i, "MISMATCH", "destination holds " \o e.target_after \o " afterwards, expected " \o D!TargetAfter(e.mode, e.dest, c))
+    ELSE IF e.result # D!Result(e.mode, e.dest, c, sh)
+        THEN Report(i, "MISMATCH", "returns " \o e.result \o " where " \o D!Result(e.mode, e.dest, c, sh) \o " is due: " \o e.detail)
+    ELSE IF e.target_after # D!TargetAfter(e.mode, e.dest, c, sh)
+        THEN Report(i, "MISMATCH", "destination holds " \o e.target_after \o " afterwards, expected " \o D!TargetAfter(e.mode, e.dest, c, sh))
     ELSE IF e.others # <<>> THEN Report(i, "MISMATCH", "something besides the destination was written: " \o e.others[1])
-    ELSE IF e.stdout # D!Stdout(e.mode, e.dest, c) THEN Report(i, "MISMATCH", "standard output is " \o e.stdout \o ", expected " \o D!Stdout(e.mode, e.dest, c))
+    ELSE IF e.stdout # D!Stdout(e.mode, e.dest, c, sh) THEN Report(i, "MISMATCH", "standard output is " \o e.stdout \o ", expected " \o D!Stdout(e.mode, e.dest, c, sh))
     ELSE IF ~e.warnings_same THEN Report(i, "MISMATCH", "compile() returns other warnings than compile_to_string()")
     \* the hook trace of the call (library only; -1 where no hooks were recorded): output_generated is reached exactly once, as the
     \* last step, iff internal_compile succeeded -- Delivery!InternalCompile goes to "done" on failure without a deliver step
